@@ -1,7 +1,9 @@
 import Req.Driver.Proto
 import Req.Base.Base64
 import Req.Client.Auth
+import Req.Client.AuthWire
 import Req.Client.Digest
+import Req.Client.DigestAuth
 import Req.Client.Rfc7616
 /-! Driver lanes of C20. -/
 namespace Req.Driver.L.C20
@@ -25,6 +27,7 @@ def errName : Err → String
   | .rand => "rand"
   | .bodySetup => "body-setup"
   | .unreplayableBody => "unreplayable-body"
+  | .invalidHeader => "invalid-header"
 
 def optHex : Option Bytes → String
   | some b => "some:" ++ encodeHex b
@@ -133,7 +136,10 @@ def laneHandleWith (full : Bool) : List String → String
        | .untouched => "untouched"
        | .failed e => "err " ++ errName e
        | .resend h b =>
-         if full then "resend " ++ encodeHex h ++ " " ++ wireBody b else "resend " ++ wireBody b)
+         -- the transport's refusal of a field value with a control byte is independent of
+         -- digest.go: it applies to the code as found as well
+         if !h.all Req.DigestAuth.isFieldByte then "err invalid-header"
+         else if full then "resend " ++ encodeHex h ++ " " ++ wireBody b else "resend " ++ wireBody b)
     | _, _, _, _, _, _, _, _ => "bad-op"
   | _ => "bad-op"
 
@@ -154,6 +160,116 @@ def laneVerify : List String → String
     | _, _, _, _, _, _, _, _, _, _, _ => "bad-op"
   | _ => "bad-op"
 
+
+/-! ### the repaired code (fixes/C20-5): `Req.DigestAuth` -/
+
+def laneParse2 : List String → String
+  | [raw] =>
+    match decodeHex raw with
+    | some raw =>
+      (match Req.DigestAuth.parseChallenge algOf raw with
+       | .ok c => "ok " ++ encodeList (chalFields c)
+       | .error e => "err " ++ errName e)
+    | none => "bad-op"
+  | _ => "bad-op"
+
+def laneAuth2 : List String → String
+  | [chal, user, pass, method, uri, nc, rnd] =>
+    match decodeList chal, decodeHex user, decodeHex pass, decodeHex method, decodeHex uri,
+          nc.toNat?, decodeRnd rnd with
+    | some fs, some user, some pass, some method, some uri, some nc, some rnd =>
+      (match chalOfFields fs with
+       | some c =>
+         (match Req.DigestAuth.authorize idH algOf c { user, pass, method, uri, nc } rnd with
+          | .ok h => "ok " ++ encodeHex h
+          | .error e => "err " ++ errName e)
+       | none => "bad-op")
+    | _, _, _, _, _, _, _ => "bad-op"
+  | _ => "bad-op"
+
+/-- `c20create2 lines user pass method uri rnd`: `createDigestAuth` on all field lines -/
+def laneCreate2 : List String → String
+  | [lines, user, pass, method, uri, rnd] =>
+    match decodeList lines, decodeHex user, decodeHex pass, decodeHex method, decodeHex uri, decodeRnd rnd with
+    | some lines, some user, some pass, some method, some uri, some rnd =>
+      (match Req.DigestAuth.createDigestAuth idH algOf lines { user, pass, method, uri } rnd with
+       | .ok h => "ok " ++ encodeHex h
+       | .error e => "err " ++ errName e)
+    | _, _, _, _, _, _ => "bad-op"
+  | _ => "bad-op"
+
+/-- the code as found: `Header.Get` (first line only), legacy parser, legacy authorize -/
+def laneCreate : List String → String
+  | [lines, user, pass, method, uri, rnd] =>
+    match decodeList lines, decodeHex user, decodeHex pass, decodeHex method, decodeHex uri, decodeRnd rnd with
+    | some lines, some user, some pass, some method, some uri, some rnd =>
+      let first := lines.headD []
+      if first.isEmpty then "err bad-challenge" else
+      (match parseChallenge first with
+       | .error e => "err " ++ errName e
+       | .ok c =>
+         (match authorize idH algOf c { user, pass, method, uri } rnd with
+          | .ok h => "ok " ++ encodeHex h
+          | .error e => "err " ++ errName e))
+    | _, _, _, _, _, _ => "bad-op"
+  | _ => "bad-op"
+
+def laneHandle2With (full : Bool) : List String → String
+  | [status, err, www, user, pass, method, uri, kind, body, rnd] =>
+    match status.toNat?, decodeList www, decodeHex user, decodeHex pass, decodeHex method,
+          decodeHex uri, decodeBody kind body, decodeRnd rnd with
+    | some status, some www, some user, some pass, some method, some uri, some body, some rnd =>
+      (match Req.DigestAuth.handle idH algOf user pass method uri body rnd
+          { err := err == "1", status, wwwAuth := www } with
+       | .untouched => "untouched"
+       | .failed e => "err " ++ errName e
+       | .resend h b =>
+         if full then "resend " ++ encodeHex h ++ " " ++ wireBody b else "resend " ++ wireBody b)
+    | _, _, _, _, _, _, _, _ => "bad-op"
+  | _ => "bad-op"
+
+/-! ### basic / bearer on the wire -/
+
+def pairHex : Option (Bytes × Bytes) → String
+  | some (u, p) => "some:" ++ encodeHex u ++ ":" ++ encodeHex p
+  | none => "none"
+
+/-- `c20wirebasic h1|h2 user pass` → `refused` | `none` | `some:<user>:<pass>` -/
+def laneWireBasic : List String → String
+  | [proto, u, p] =>
+    match decodeHex u, decodeHex p with
+    | some u, some p =>
+      (match Req.Auth.wireBasic (proto == "h2") u p with
+       | none => "refused"
+       | some r => pairHex r)
+    | _, _ => "bad-op"
+  | _ => "bad-op"
+
+/-- `c20wirebearer h1|h2 token` → `refused` | `none` | `some:<token>` -/
+def laneWireBearer : List String → String
+  | [proto, t] =>
+    match decodeHex t with
+    | some t =>
+      (match Req.Auth.wireBearer (proto == "h2") t with
+       | none => "refused"
+       | some r => optHex r)
+    | none => "bad-op"
+  | _ => "bad-op"
+
+/-- `c20effective h1|h2 req|. client|. urluser|. urlpass` → the Authorization value on the wire -/
+def laneEffective : List String → String
+  | [proto, r, c, uu, up] =>
+    match decodeOpt r, decodeOpt c, decodeOpt uu, decodeHex up with
+    | some r, some c, some uu, some up =>
+      (match Req.Auth.effective r c (uu.map fun u => (u, up)) with
+       | none => "none"
+       | some v =>
+         (match Req.Auth.transport (proto == "h2") v with
+          | none => "refused"
+          | some w => "some:" ++ encodeHex w))
+    | _, _, _, _ => "bad-op"
+  | _ => "bad-op"
+
 def lanes : List (String × (List String → String)) := [
   ("c20b64", laneB64),
   ("c20b64dec", laneB64Dec),
@@ -164,7 +280,16 @@ def lanes : List (String × (List String → String)) := [
   ("c20auth", laneAuth),
   ("c20handle", laneHandleWith true),
   ("c20kind", laneHandleWith false),
-  ("c20verify", laneVerify)
+  ("c20verify", laneVerify),
+  ("c20parse2", laneParse2),
+  ("c20auth2", laneAuth2),
+  ("c20create2", laneCreate2),
+  ("c20create", laneCreate),
+  ("c20handle2", laneHandle2With true),
+  ("c20kind2", laneHandle2With false),
+  ("c20wirebasic", laneWireBasic),
+  ("c20wirebearer", laneWireBearer),
+  ("c20effective", laneEffective)
 ]
 
 end Req.Driver.L.C20
